@@ -3,11 +3,12 @@ GEN = True           # go/extract/c03.go: BlugeGen.C03 (recovery walk, nextSegme
                      # and the layers its theorems are stated over: BlugeGen.C02, BlugeGen.C12
 STATELESS = False
 NO_SHRINK = True     # the trace of a case depends on goroutine scheduling: a shrunk script is a different run
+SEARCH_SCALE = 1      # a correspondence break is searched with one more run of the same size (the runs are long)
 REQUIRED_BRANCHES = [
     "intro", "grab", "segend", "ipersist", "snapend", "commit", "ack", "ackobs", "rmsnap", "rmseg", "imerge", "equiv",
     "image-after-ack", "image-before-ack", "img-snap-a", "img-snap-t", "img-snap-f", "img-seg-torn", "img-seg-full",
     "img-recovers-unacked", "img-full-snapshot-recovered", "img-no-snapshot", "img-none-loadable",
-    "img:absent", "img:prefix", "img:zero", "img:full", "img:stale", "img:previous", "img:asis",
+    "img:absent", "img:prefix", "img:zero", "img:full", "img:stale", "img:asis",
     "replay", "crash", "open-refused", "open-empty", "fork:firstsnap-torn", "fork:firstsnap-absent", "crash-snap-t", "crash-snap--", "open-existing", "snapbegin-over-existing-file",
     "fork:snap", "fork:seg", "fork:orphan", "fork:acked", "fork:twofault", "fork-depth:1", "fork-depth:2",
     "img-depth:0", "img-depth:1", "img-depth:2",
@@ -43,6 +44,8 @@ def signature(rec):
         return "open-fails-after-completed-snapshot"
     if v.startswith("bad:assumption-torn-rejected"):
         return "torn-snapshot-accepted"
+    if v.startswith("bad:segment-id-not-fresh"):
+        return "segment-id-reused"
     return None
 
 
